@@ -26,6 +26,9 @@ PROBE_PARAMS = {
                    ['dict', {'x': 'float', 'zz': 'int'}], 'strab']),
     '_ps2': ('ps2', [['dict', {'x': 'float', 'n': 'int'}], ['dict', {'x': 'float'}], ['dict', {}]]),
     '_pa': ('pa', [['list', []], ['list', ['int']], ['list', ['int', 'int', 'int', 'int']], ['list', ['float']], 'strab']),
+    '_psc': ('psc', ['int', 'float', 'str12']),
+    '_pbl': ('pbl', ["lit:'YWI='", "lit:'YW I='", "lit:'YWJjZGU='", 'int']),
+    '_ptu': ('ptu', [['list', ['int', "lit:'ab'"]], ['list', ['int']], ['list', ['int', "lit:'abcd'"]], 'strab']),
     '_other': ('cust', ['float', 'strab']),
     '_nowrite': ('nowrite', ['float', 'int']),
 }
@@ -49,6 +52,8 @@ def cases(tier):
         for i, k in enumerate(kinds):
             out.append({'fn': 'run_cmd_probe', 'id': f'cmd-probe/{cname}/{i}', 'params': {'wname': cname, 'cand': k}})
     out.append({'fn': 'run_constant', 'id': 'constant', 'params': {}})
+    for cfgname in ('demo_cfg.py', 'sim_cfg.py', 'test_cfg.py', 'cryo_cfg.py'):
+        out.append({'fn': 'run_shipped', 'id': f'shipped/{cfgname}', 'params': {'cfg': cfgname}})
     for attr, wname in (('pf', '_pf'), ('cmd0', '_cmd0'), ('target', 'target')):
         out.append({'fn': 'run_cfg_unexported', 'id': f'cfg-unexported/{attr}', 'params': {'attr': attr, 'wname': wname}})
     for v in ('readable', 'writable', 'drivable', 'communicator', 'feature', 'plain'):
@@ -132,7 +137,7 @@ def run_probe(env, p):
     except Exception as e:
         env.fail(K + '/datainfo-not-rebuildable/' + type(e).__name__, repr(e))
         return
-    cand = M.make(env, p['cand'], 'v', box={'f': 8, 'i': 8} if p['attr'] in ('pe', 'pb') else {'f': 2000, 'i': 2000})
+    cand = M.make(env, p['cand'], 'v', box={'f': 8, 'i': 8} if p['attr'] in ('pe', 'pb') else {'f': 200, 'i': 200} if p['attr'] == 'psc' else {'f': 2000, 'i': 2000})
     try:
         cval = cdt.validate(cdt.import_value(cand.value))
         client_ok = True
@@ -312,5 +317,83 @@ def run_undescribed(env, p):
         if rep and rep[-1][0].startswith('error_'):
             env.check(rep[-1][2][0] in ('NoSuchModule', 'NoSuchParameter', 'NoSuchCommand'), K + f'/{rq[0]}-error-class', rep[-1][2][0])
     env.check(log == [], K + '/driver-reached', [e[0] for e in log])
+    env.note('accept-agree')
+    env.note('reject-agree')
+
+
+def run_shipped(env, p):
+    """the shipped demo / simulation configurations (concrete): description strict, stable, true of the cache"""
+    import importlib
+    import json
+    import os
+    from pathlib import Path
+    from frappy.config import process_file
+    from frappy.datatypes import get_datatype
+    import frappy
+    K = 'C06/shipped/' + p['cfg']
+    repo = os.path.dirname(os.path.dirname(os.path.abspath(frappy.__file__)))
+    real = os.environ.get('FRAPPY_REPO', '/repo')
+    cfgfile = Path(real) / 'cfg' / p['cfg']
+
+    class T:
+        def join(self, *a):
+            pass
+
+        def is_alive(self):
+            return False
+    for modname in ('frappy.lib', 'frappy.modulebase', 'frappy_demo.modules', 'frappy.simulation', 'frappy_demo.cryo'):
+        try:
+            m = importlib.import_module(modname)
+            if hasattr(m, 'mkthread'):
+                m.mkthread = lambda *a, **k: T()
+        except Exception:
+            pass
+    try:
+        cfg = process_file(cfgfile, C.LOG)
+        cfg.pop('node')
+        srv = C.make_node(dict(cfg))
+    except Exception as e:
+        env.fail(K + '/not-loadable/' + type(e).__name__, repr(e)[:200])
+        return
+    env.check(srv.secnode.errors == [], K + '/configuration-errors', srv.secnode.errors[:3])
+    conn = C.Conn()
+    d1 = srv.dispatcher.handle_request(conn, ('describe', '.', None))[2]
+    d2 = srv.dispatcher.handle_request(conn, ('describe', '.', None))[2]
+    try:
+        t1 = json.dumps(d1, allow_nan=False, sort_keys=True)
+        env.check(t1 == json.dumps(d2, allow_nan=False, sort_keys=True), K + '/not-stable-between-calls')
+        env.check(json.loads(t1) == json.loads(json.dumps(d1)), K + '/json-roundtrip')
+    except Exception as e:
+        env.fail(K + '/not-strict-json/' + type(e).__name__, repr(e)[:200])
+        return
+    exported = [n for n, m in srv.secnode.modules.items() if m.export]
+    env.check(list(d1['modules']) == exported, K + '/module-list', [list(d1['modules']), exported])
+    srv.dispatcher.handle_request(conn, ('activate', None, None))
+    updates = {m[1]: m for m in conn.sent if m[0] in ('update', 'error_update')}
+    for mn, md in d1['modules'].items():
+        mod = srv.secnode.modules[mn]
+        want = [a.export for a in mod.accessibles.values() if a.export]
+        env.check(list(md['accessibles']) == want, K + '/accessible-list', mn)
+        for an, acc in md['accessibles'].items():
+            try:
+                dt = get_datatype(acc['datainfo'], an)
+            except Exception as e:
+                env.fail(K + '/datainfo-not-rebuildable/' + type(e).__name__, [mn, an, repr(e)[:100]])
+                continue
+            if dt.IS_COMMAND:
+                continue
+            attr = mod.accessiblename2attr[an]
+            env.check(acc.get('readonly') == mod.parameters[attr].readonly, K + '/readonly-flag', [mn, an])
+            upd = updates.get(f'{mn}:{an}')
+            if env.check(upd is not None, K + '/no-snapshot-update-for-described-parameter', [mn, an]) and upd[0] == 'update':
+                try:
+                    json.dumps(upd[2], allow_nan=False)
+                    dt.validate(dt.import_value(upd[2][0]))
+                except Exception as e:
+                    env.fail(K + '/emitted-value-not-importable/' + type(e).__name__, [mn, an, repr(upd[2][0])[:60], repr(e)[:100]])
+            if acc.get('readonly'):
+                h, per = C.scripted_handler(srv, [('change', f'{mn}:{an}', upd[2][0] if upd and upd[0] == 'update' else 0)])
+                env.check(per[0][0][0] == 'error_change' and per[0][0][2][0] == 'ReadOnly', K + '/readonly-parameter-changeable', [mn, an, per[0][0][:2]])
+    env.check(all(':' in k and k.split(':')[0] in exported for k in updates), K + '/update-for-undescribed-module')
     env.note('accept-agree')
     env.note('reject-agree')
